@@ -19,6 +19,8 @@ SHARD = 400
 RULE = ("case = (transform, parameters, vector x, list|ndarray); transforms: impose_bounds (list/dict bounds, 1-3 intervals, None ends, "
         "clip/nearest modes with recorded numpy.random draws), discrete, integers, rounded, precision, sorting, monotonic, impose_at, "
         "impose_as, impose_unique, masked, partial, synchronized, suppressed, clipped, with_mean, with_variance, with_spread, normalized; "
+        "the decorated function is also reconfigured through its attributes (samples/index/type/digits/clip/nearest) after being built with other "
+        "parameters, with unsorted, reversed and duplicated sample sets; "
         "x of length 0-8 on the dyadic grid k/4 (plus values exactly on bounds / samples / midpoints / .5 ties); index forms None, int, "
         "negative, out-of-range, tuples (sorted, unsorted, with duplicates, empty, with one bad member); non-trivial = len(x) >= 2; "
         "distinct = distinct case JSON")
@@ -298,7 +300,49 @@ def generate(rng, n, tier):
             if t == "with_variance" and r >= 0.41 and cur and rng.random() < 0.6:
                 target = cur * rng.choice([4.0, 0.25, 9.0, 2.25])      # rational scale
             c.update(target=target, x=x)
+        _add_via(rng, c)
         yield c
+
+
+_MODES = ["clipnear", "cliprand", "drawnear", "drawrand"]
+
+
+def _add_via(rng, c):
+    """with some probability build the decorated function with DIFFERENT parameters and then set the final ones through the
+    attributes it exposes (f.samples(), f.index(), f.type(), f.digits(), f.clip()/f.nearest()); the case fields stay the final ones"""
+    t = c["t"]
+    if t not in ("discrete", "integers", "rounded", "precision", "sorting", "monotonic", "bounds") or rng.random() > 0.4:
+        return
+    init = {}
+    n = len(c["x"])
+    if t == "discrete":
+        if rng.random() < 0.85:
+            r = rng.random()
+            s = list(c["samples"])
+            if r < 0.3:
+                s = sorted(s, reverse=True)                     # reversed
+            elif r < 0.55 and s:
+                s = s + [rng.choice(s) for _ in range(rng.randint(1, 2))]      # duplicated
+                rng.shuffle(s)
+            elif r < 0.8:
+                rng.shuffle(s)                                  # unsorted
+            c["samples"] = s
+            init["samples"] = rng.choice([[0.0, 50.0], [100.0], sorted(s)[:1] or [1.0]])
+    if t == "integers" and rng.random() < 0.6:
+        init["ints"] = not c["ints"]
+    if t in ("rounded", "precision") and rng.random() < 0.6:
+        init["digits"] = (c["digits"] or 0) + rng.choice([1, 2, -1])
+    if t == "bounds":
+        if c["form"] != "list" or c["mode"] in ("drawnear", "drawrand"):
+            return
+        init["mode"] = rng.choice([m for m in _MODES[:2] if m != c["mode"]])
+    elif rng.random() < 0.6 or not init:
+        if isinstance(c["idx"], int):
+            c["idx"] = [c["idx"]]           # the setters store the index as given: an int is not converted to a tuple
+        if t in ("sorting", "monotonic") and c["idx"] is not None and len(c["idx"]) == 1 and rng.random() < 0.5:
+            pass
+        init["idx"] = rng.choice([None, [0] if n else [], list(range(min(n, 2)))])
+    c["via"] = dict(init=init)
 
 
 # ---------------------------------------------------------------------------------------------- implementation driver
@@ -365,6 +409,28 @@ def _decorator(case):
     raise ValueError(t)
 
 
+def _build(case):
+    """decorator(...)(identity), possibly reconfigured through the attributes of the decorated function"""
+    ident = lambda v: v
+    via = case.get("via")
+    if not via:
+        return _decorator(case)(ident)
+    f = _decorator(dict(case, **via["init"]))(ident)
+    for key in via["init"]:
+        if key == "samples":
+            f.samples(list(case["samples"]))
+        elif key == "idx":
+            f.index(_pyidx(case["idx"]))
+        elif key == "ints":
+            f.type(case["ints"])
+        elif key == "digits":
+            f.digits(case["digits"])
+        elif key == "mode":
+            f.clip(case["mode"] in ("clipnear", "cliprand"))
+            f.nearest(case["mode"] in ("clipnear", "drawnear"))
+    return f
+
+
 def _canon(r):
     import numpy as np
     vals = [float(v) for v in r]
@@ -400,7 +466,7 @@ def _call(case, x, rec):
         with warnings.catch_warnings():
             warnings.simplefilter("ignore")
             with np.errstate(all="ignore"):
-                f = _decorator(case)(lambda v: v)
+                f = _build(case)
                 r = f(x)
                 rec["raw"] = r
                 return _canon(r)
@@ -1038,6 +1104,12 @@ def classify(case, obs):
     out = obs.get("out", {})
     n = len(case["x"])
     tags = ["t:" + t, "len:%d" % n, "container:" + ("ndarray" if case["arr"] else "list")]
+    if case.get("via"):
+        tags.append("set-through-attribute:" + "+".join(sorted(case["via"]["init"])))
+        if t == "discrete" and "samples" in case["via"]["init"]:
+            sm = case["samples"]
+            tags.append("attribute-samples:" + ("ascending" if sm == sorted(sm) else "descending" if sm == sorted(sm, reverse=True) else "unsorted")
+                        + ("+dup" if len(set(sm)) != len(sm) else ""))
     idx = case.get("idx", "n/a")
     if idx != "n/a":
         if idx is None:
@@ -1083,6 +1155,8 @@ def shrink(case):
     t = case["t"]
     if case.get("arr"):
         yield dict(case, arr=False)
+    if case.get("via"):
+        yield dict((k, v) for k, v in case.items() if k != "via")
     if t in ("bounds", "discrete", "integers", "rounded", "precision", "sorting", "monotonic", "suppressed", "clipped",
              "with_mean", "with_variance", "with_spread", "normalized", "unique", "partial", "synchronized", "impose_at", "impose_as", "masked"):
         for i in reversed(range(len(x))):
